@@ -21,14 +21,38 @@
       - C02_operands_reachable: everything the next instruction can dereference (stack operands, locals, globals,
         the running frame's closure, its upvalues and the values they designate, the open-upvalue list) is
         reachable from the roots, hence survives.
+   3. Collections in the MIDDLE of an instruction (VmAllocPoints.v: a hand transcription of where vm.rs /
+      instr_execution.rs / runtime.rs / stdlib.rs call the allocator, with the VM state as the Rust code has it at
+      that moment - operands still on the stack or already popped -, the objects under a live ObjectGcGuard, and the
+      addresses the rest of the instruction still uses).
+      - C02_alloc_point_temporaries_rooted: in every closed state, at every allocation point of the next instruction
+        (StringLiteral, InitTable, SetProperty, FunctionPointer, Closure, NativeFunctionPointer, NthRow, AppendTable,
+        RegisterUpvalue, and - entered by CallNative or by CallFunction on a native function value - all of
+        __to_array and __min / __max / __sort up to the first call of the key function) the
+        state is closed, the guards are heap objects and every used address is reachable from the VM roots ++ the
+        guards, PROVIDED the addresses in ap_assumed are (see below).
+      - C02_collection_with_guards / C02_collection_at_alloc_point: a collection there (roots of the VM, guarded
+        objects Protected) terminates and keeps every used object in place with the same references.
+      - C02_register_upvalue_after_copylast: ap_assumed of RegisterUpvalue (the closure it popped) is rooted when
+        the instruction before was CopyLast of that closure, which is what the compiler always emits.
+      - C02_alloc_points_match_step: for the allocating opcodes that are not native calls, when the instruction of
+        Vm.v completes the heap has grown by exactly the number of object allocations (AObject points) listed for it.
+      ap_assumed is non-empty only for (a) RegisterUpvalue: the popped closure - on hand-written bytecode without
+      the CopyLast it is NOT rooted and a collection at init_upvalue frees it before c.upvalues.push (witness:
+      VmAllocPointsWitness.alloc_gap_register_upvalue, program VmUpvalueSem.dead_slot_program; vm.rs documents
+      non-compiler bytecode as unsupported); (b) NthRow after its first init_table: key / value copied out of the
+      table (they are in the table; that iteration still finds them over the grown heap needs the stability of ==
+      under allocation, VmTableKeys.veq0_ext, not redone), likewise the key / value being copied in the copy loops
+      of the natives; (c) NthRow on a key of the key vector that the hash part does not hold.
    NOT PROVED (checked on the implementation by the forced-collection schedules with quarantine and heap audit,
    see the manifest: partial)
-   - collections in the MIDDLE of an instruction or native: that every temporary held across an allocation point
-     (e.g. the closure that RegisterUpvalue has popped while it allocates the upvalue, the table a native is
-     filling) is rooted or guarded at that point.  The VM model allocates without collecting; guards (Protected
-     objects) exist only on the collector side of the model.
-   - that [vm_kids]/[vm_roots] are what runtime.rs traces is a hand transcription (tied to the code by the heap
-     dumps compared in C02Check.v); 32-bit hash collisions of table keys are not modelled; when the == / hash of a
+   - allocation points NOT in the model of 3: those of __min / __max / __sort from the first call of the key function
+     on (the nested runs of the key function under the guards `entries` / max_key / key_guards, make_row, the
+     result table of sorted), Vm::insert_value (host API);
+     that AGrow points are conditional (capacity) is not modelled: the theorem covers them whether they occur or not.
+   - that the allocation points, [vm_kids] and [vm_roots] are what the Rust code does is a hand transcription (tied
+     to the code by the heap dumps compared in C02Check.v and by the forced schedules, which collect at exactly
+     these points); 32-bit hash collisions of table keys are not modelled; when the == / hash of a
      table key does not return (cyclic table as a key, A-37) the model keeps everything the table holds. *)
 From Coq Require Import NArith List Bool.
 Import ListNotations.
@@ -152,3 +176,76 @@ Example C02_vm_nonvacuous :
              vm_roots s = [1%N]) /\
   state_closed wit_s0.
 Proof. exact (conj wit_state_closed (conj wit_collection (conj wit_boundary wit_s0_closed))). Qed.
+
+(* ------------------------------------------------------------------ *)
+(* collections in the middle of an instruction (allocation points)     *)
+(* ------------------------------------------------------------------ *)
+From Cao Require Import VmAllocPoints VmAllocPointsProofs VmAllocPointsWitness VmAllocPointsStep.
+
+Theorem C02_alloc_point_temporaries_rooted :
+  forall F P ip0 s p, state_closed s -> In p (alloc_points F P ip0 s) ->
+  state_closed (ap_state p) /\
+  Forall (aok (hl (ap_state p))) (ap_guards p) /\
+  ((forall a, In a (ap_assumed p) -> reach (vm_abs F (ap_state p)) (vm_roots (ap_state p) ++ ap_guards p) a) ->
+   forall a, In a (ap_uses p) -> reach (vm_abs F (ap_state p)) (vm_roots (ap_state p) ++ ap_guards p) a).
+Proof. exact alloc_point_temporaries_rooted. Qed.
+Print Assumptions C02_alloc_point_temporaries_rooted.
+
+Theorem C02_collection_with_guards :
+  forall F s g, state_closed s -> Forall (aok (hl s)) g ->
+  exists h', gc (vm_abs_g F s g) (vm_roots s) = Some h' /\
+  (forall a, reach (vm_abs F s) (vm_roots s ++ g) a ->
+       exists o o', hget (st_heap s) a = Some o /\ h' !! a = Some o' /\ kids o' = vm_kids F s o) /\
+  closed h' /\ no_gray h'.
+Proof. exact collection_with_guards. Qed.
+Print Assumptions C02_collection_with_guards.
+
+Theorem C02_collection_at_alloc_point :
+  forall F P ip0 s p, state_closed s -> In p (alloc_points F P ip0 s) ->
+  (forall a, In a (ap_assumed p) -> reach (vm_abs F (ap_state p)) (vm_roots (ap_state p) ++ ap_guards p) a) ->
+  exists h', gc (vm_abs_g F (ap_state p) (ap_guards p)) (vm_roots (ap_state p)) = Some h' /\
+  (forall a, In a (ap_uses p) ->
+       exists o o', hget (st_heap (ap_state p)) a = Some o /\ h' !! a = Some o' /\
+  kids o' = vm_kids F (ap_state p) o) /\
+  closed h' /\ no_gray h'.
+Proof. exact collection_at_alloc_point. Qed.
+Print Assumptions C02_collection_at_alloc_point.
+
+Theorem C02_register_upvalue_after_copylast :
+  forall F P ip s ca s' p,
+  slast s = VObj ca -> spush s (VObj ca) = Some s' -> In p (ap_45 P ip s') ->
+  forall a, In a (ap_assumed p) -> reach (vm_abs F (ap_state p)) (vm_roots (ap_state p) ++ ap_guards p) a.
+Proof. exact register_after_copylast. Qed.
+Print Assumptions C02_register_upvalue_after_copylast.
+
+Theorem C02_alloc_points_match_step :
+  forall F P bld reenter ip0 s ip' s',
+  In (nth (N.to_nat ip0) (p_code P) 255%N) [8; 31; 33; 37; 38; 39; 40; 42; 45]%N ->
+  step F bld P reenter ip0 s = SNext ip' s' ->
+  length (st_heap s') = length (st_heap s) + n_objects (alloc_points F P ip0 s).
+Proof. exact VmAllocPointsStep.alloc_points_match_step. Qed.
+Print Assumptions C02_alloc_points_match_step.
+
+(* non-vacuity: closed non-trivial states whose next instruction has allocation points (SetProperty with a fresh key;
+   CopyLast then RegisterUpvalue next to an open upvalue; NthRow with its six allocations and growing guards), the
+   collection at each point keeps everything used; and the gap of RegisterUpvalue without CopyLast *)
+Example C02_alloc_points_nonvacuous :
+  (state_closed st_setprop /\
+  map ap_view (alloc_points F0 (code_only [33%N]) 0 st_setprop) = [(AGrow, [], [1; 9; 8]%N, [])] /\
+  map (fun p => ap_survivors p (ap_uses p)) (alloc_points F0 (code_only [33%N]) 0 st_setprop)
+   = [Some [true; true; true]]) /\
+  (state_closed st_reg0 /\
+  step F0 Debug prog_reg (run_at F0 Debug prog_reg false 100 0) 0 st_reg0 = SNext 1 st_reg /\
+  map ap_view (alloc_points F0 prog_reg 1 st_reg) = [(AObject, [], [0; 1]%N, [0%N])] /\
+  map (fun p => ap_survivors p (ap_uses p)) (alloc_points F0 prog_reg 1 st_reg) = [Some [true; true]]) /\
+  (state_closed st_nthrow /\ length (alloc_points F0 (code_only [39%N]) 0 st_nthrow) = 6) /\
+  (boundary F0 Debug VmUpvalueSem.dead_slot_program 100%N wit_s0 st_gap /\
+  map ap_view (alloc_points F0 VmUpvalueSem.dead_slot_program 10 st_gap) = [(AObject, [], [0%N], [0%N])] /\
+  map (fun p => ap_survivors p (ap_uses p)) (alloc_points F0 VmUpvalueSem.dead_slot_program 10 st_gap)
+   = [Some [false]]).
+Proof.
+  split; [exact (conj st_setprop_closed ex_setprop)|].
+  split; [exact (conj st_reg0_closed ex_register)|].
+  split; [split; [exact st_nthrow_closed|vm_compute; reflexivity]|].
+  exact alloc_gap_register_upvalue.
+Qed.
